@@ -8,6 +8,8 @@ upper bound) or [size] * K; (CHOICE) each intervention is rng.choice(pool, size=
 distinct variables - from range(p); (COUNT) the loop runs over range(K) and appends exactly once per
 iteration; (POOL) with replace=False the pool starts as set(range(p)) and loses every drawn target before
 the next draw; (SEED) one generator default_rng(random_state).
+Also decided: building an error message cannot itself raise (`%` with an argument that may be a tuple); sizes and targets are
+successive draws of one generator (RNG rules of C13).
 Not decided: 'over seeds every size and variable occurs' (statistical).
 """
 from .common import *
